@@ -205,6 +205,12 @@ func (c *checkSchema) checkLinksOfNode(node ischema.Node, ss map[string]ischema.
 	}
 
 	c.collectAllowedJsonTypes(node, ss)
+	if _, ok := node.(*ischema.MixedNode); ok {
+		// The root of an "or" alternative written as a rule-set. Its json type is
+		// the type of the whole example, which may belong to another alternative:
+		// the node that carries the "or" rule checks the example against them all.
+		return
+	}
 	if _, ok := c.allowedJsonTypes[node.Type()]; !ok {
 		panic(errs.ErrIncorrectUserType.F())
 	}
